@@ -459,3 +459,17 @@ Proof.
   rewrite combine_map_same, map2_map_same. cbn [fst snd]. apply map_ext_in. intros r Hr.
   apply binned_auprc_floor_thm; try assumption. intros x Hx. apply (Hge r x Hr Hx).
 Qed.
+
+(* binned = the C05 quantities of the floored scores *)
+Theorem binned_auroc_C05_floor : forall (T : list Z) (xs : list sample),
+  asc T -> T <> [] -> (forall x, In x xs -> hd 0 T <= fst x) ->
+  binary_binned_auroc T xs = Curves.auroc_spec (map lift (floored T xs)) /\
+  binary_binned_auroc T xs = Curves.auroc_row (map lift (floored T xs)).
+Proof.
+  intros T xs Hs Hne Hge. rewrite CurvesP.auroc_row_spec, <- auroc_exact_is_C05. split; apply binned_auroc_floor_thm; assumption.
+Qed.
+Theorem binned_auprc_C05_floor : forall (T : list Z) (xs : list sample),
+  asc T -> T <> [] -> (forall x, In x xs -> hd 0 T <= fst x) ->
+  auprc_curve (map zq (bin_tp T xs)) (map zq (bin_fp T xs)) (map zq (bin_fn T xs))
+  = Fin (Curves.auprc_spec (map lift (floored T xs))).
+Proof. intros T xs Hs Hne Hge. rewrite <- auprc_exact_is_C05. apply binned_auprc_floor_thm; assumption. Qed.
